@@ -21,6 +21,18 @@ def tempo_vs_pt(inp):
             err = float(np.abs(d1.states - d2.states).max())
             if len(d1.states) != len(d2.states) or err > 5e-6:
                 bad.append({'coupling': 'diagonal' if O[0, 1] == 0 else 'non-diagonal', 'unique': unique, 'dkmax': K, 'add_correlation_time': tau, 'max_difference': err})
+            if O[0, 1] != 0 and K in (None, 3):
+                # the file-backed process tensor is set up by its own constructor (basis rotation included)
+                ptf = oqupy.PtTempo(bath, t0, t0 + 0.6, par, unique=unique, process_tensor_file=True).get_process_tensor(progress_type='silent')
+                try:
+                    d2f = oqupy.compute_dynamics(sys_, initial_state=rho0, process_tensor=ptf, start_time=t0, progress_type='silent')
+                finally:
+                    ptf.close()
+                    ptf.remove()
+                errf = float(np.abs(d1.states - d2f.states).max())
+                if len(d1.states) != len(d2f.states) or errf > 5e-6:
+                    bad.append({'coupling': 'non-diagonal', 'process_tensor': 'file-backed', 'unique': unique, 'dkmax': K,
+                                'add_correlation_time': tau, 'max_difference': errf})
             # prefix: first n steps of the longer PT against a PT built for exactly n steps
             n = 3
             d3 = oqupy.compute_dynamics(sys_, initial_state=rho0, process_tensor=pt, start_time=t0, num_steps=n, progress_type='silent')
